@@ -216,7 +216,7 @@ RULE = ('cell enumeration: restricting feature x placement. clock compared with 
         'declared (plain, urgent, array, 2-d array, typedef, in a declaration list; global first / last, template-local, used '
         'in a synchronisation, as a template parameter), channel and process priorities; every cell additionally with the template '
         'entering the system as an explicit instance, as a process set with a free parameter, through a partial instantiation '
-        'and as two instances. (continued) '
+        'and as two instances; a stride of the cells additionally spliced into larger generated models (host embedding: other declarations, templates and processes around the cell, identifiers renamed apart; the embedded twin tells whether the host alone already gives a false verdict). (continued) '
         'in a synchronisation, as a template parameter), channel and process priorities. For each accepted model carrying the '
         'feature in an instantiated template the corresponding verdict must be false (symbolic / stochastic / concrete); the twin '
         'without the feature shows that the cell is attributable (a twin that is already false makes the cell vacuous: counted). '
@@ -259,6 +259,42 @@ def worker(chk, wi, nw):
             if w['methods'].get(f):
                 chk.report(stats, dict(desc_base, flag=f), 'feature %s at %s: %s analysis is reported as supported (%r)' % (c['feature'], c['placement'], f, w['methods']),
                            {'kind': 'model', 'xml': assemble(c['W']), 'flags': [f]})
+    # the same cells spliced into larger generated models: other declarations, templates and processes around P must not hide the feature
+    import gen_model as M
+    estride = 11 if chk.tier == 'quick' else 2
+
+    def etest(args):
+        m, off = args
+        host = cells.host_from_model(m, off)
+        subset = mine[off % estride::estride]
+        with cells.embedding(host):
+            texts = [assemble(c['W']) for c in subset] + [assemble(c['T']) for c in subset]
+        eres = run.run_many([(x, None) for x in texts])
+        ns = len(subset)
+        for k, c in enumerate(subset):
+            w, t = eres[k], eres[ns + k]
+            if w['crash']:
+                stats.extra['crashes_seen_(C01)'] += 1
+                continue
+            if w['errors'] or w['exc']:
+                stats.extra['embedded_model_not_accepted'] += 1
+                stats.evaluations += 1
+                continue
+            vac = [f for f in c['flags'] if not (t['methods'] or {}).get(f, False)] if not (t['errors'] or t['exc'] or t['crash']) else list(c['flags'])
+            stats.case('embedded|%s|%s|%s' % (c['feature'], c['placement'], texts[k]), nontrivial=not vac,
+                       classes=['embedded', 'feature:' + c['feature']] + (['embedded:host-verdict-already-false'] if vac else []),
+                       sample={'feature': c['feature'], 'placement': c['placement'], 'embedded': True, 'methods': w['methods'], 'twin_methods': t['methods'],
+                               'host_processes': host['processes'][:4]})
+            for f in c['flags']:
+                if w['methods'].get(f):
+                    chk.report(stats, {'feature': c['feature'], 'placement': c['placement'], 'flag': f + '@embedded'},
+                               'feature %s at %s inside a larger generated model: %s analysis is reported as supported (%r)' % (c['feature'], c['placement'], f, w['methods']),
+                               {'kind': 'model', 'xml': texts[k], 'flags': [f]})
+        return None
+
+    common.run_hypothesis(chk, stats, st.tuples(M.models(need_clean=True, max_templates=2), st.integers(0, 1000)), etest, 3 if chk.tier == 'quick' else 20,
+                          chk.seed * 1000 + 500 + wi, shrink=False)
+
     # metamorphic: unused templates and declaration order
     stride = 1 if chk.tier == 'thorough' else 5
     items = []
